@@ -1069,39 +1069,42 @@ class PDFDocument:
         # /Prev and /XRefStm may lead back to a section that has been read
         if visited is None:
             visited = set()
-        if start in visited:
-            return
-        visited.add(start)
-        if start < 0:
-            raise PDFNoValidXRef("Negative offset of a cross-reference section")
-        parser.seek(start)
-        parser.reset()
-        try:
-            (pos, token) = parser.nexttoken()
-        except PSEOF:
-            raise PDFNoValidXRef("Unexpected EOF")
-        log.debug("read_xref_from: start=%d, token=%r", start, token)
-        if isinstance(token, int):
-            # XRefStream: PDF-1.5
-            parser.seek(pos)
+        # The sections are read in the order /XRefStm before /Prev, depth
+        # first, without recursion: a file may have any number of updates.
+        pending = [start]
+        while pending:
+            start = pending.pop()
+            if start in visited:
+                continue
+            visited.add(start)
+            if start < 0:
+                raise PDFNoValidXRef("Negative offset of a cross-reference section")
+            parser.seek(start)
             parser.reset()
-            xref: PDFBaseXRef = PDFXRefStream()
-            xref.load(parser)
-        else:
-            if token is parser.KEYWORD_XREF:
-                parser.nextline()
-            xref = PDFXRef()
-            xref.load(parser)
-        xrefs.append(xref)
-        trailer = xref.get_trailer()
-        log.debug("trailer: %r", trailer)
-        if "XRefStm" in trailer:
-            pos = int_value(trailer["XRefStm"])
-            self.read_xref_from(parser, pos, xrefs, visited)
-        if "Prev" in trailer:
-            # find previous xref
-            pos = int_value(trailer["Prev"])
-            self.read_xref_from(parser, pos, xrefs, visited)
+            try:
+                (pos, token) = parser.nexttoken()
+            except PSEOF:
+                raise PDFNoValidXRef("Unexpected EOF")
+            log.debug("read_xref_from: start=%d, token=%r", start, token)
+            if isinstance(token, int):
+                # XRefStream: PDF-1.5
+                parser.seek(pos)
+                parser.reset()
+                xref: PDFBaseXRef = PDFXRefStream()
+                xref.load(parser)
+            else:
+                if token is parser.KEYWORD_XREF:
+                    parser.nextline()
+                xref = PDFXRef()
+                xref.load(parser)
+            xrefs.append(xref)
+            trailer = xref.get_trailer()
+            log.debug("trailer: %r", trailer)
+            if "Prev" in trailer:
+                # find previous xref (after the /XRefStm of this section)
+                pending.append(int_value(trailer["Prev"]))
+            if "XRefStm" in trailer:
+                pending.append(int_value(trailer["XRefStm"]))
 
 
 class PageLabels(NumberTree):
